@@ -84,3 +84,35 @@ pub fn random_history(rng: &mut impl Rng, small: bool) -> Vec<Value> {
     evs.push(json!({"e": "adv", "t": (sec + 1) * 1000}));
     evs
 }
+
+/// Pure saturation from cold for 2p+6 seconds, an idle gap of 2p seconds, saturation again for p+2 seconds:
+/// the whole ramp of one (q, c, p), chosen among the combinations where integer truncation matters
+/// (q not divisible by c, long warm-up periods, short periods with large cold factors).
+pub fn ramp_history(k: usize) -> Vec<Value> {
+    let combos: &[(u64, u64, u64)] = &[
+        (40, 3, 20), (300, 6, 1), (31, 3, 20), (200, 5, 1), (62, 6, 10), (35, 2, 20), (300, 4, 1), (40, 0, 20), (47, 4, 10),
+        (100, 3, 10), (300, 6, 2), (120, 3, 1), (250, 6, 3), (500, 6, 5), (61, 6, 20),
+    ];
+    let (q, c, p) = combos[k % combos.len()];
+    // offered load at least q per half second
+    let g = if q > 250 { 1 } else if q > 100 { 2 } else if q > 50 { 5 } else { 10 };
+    let mut evs = header(q, c, p);
+    let mut id = 0;
+    let mut sec = 0u64;
+    let mut run = |evs: &mut Vec<Value>, sec: &mut u64, len: u64| {
+        for _ in 0..len {
+            let mut off = 0;
+            while off < 1000 {
+                id += 1;
+                evs.push(json!({"e": "enter", "id": id, "res": "r1", "n": 1, "t": *sec * 1000 + off}));
+                off += g;
+            }
+            *sec += 1;
+        }
+    };
+    run(&mut evs, &mut sec, 2 * p + 6);
+    sec += 2 * p;
+    run(&mut evs, &mut sec, p + 2);
+    evs.push(json!({"e": "adv", "t": (sec + 1) * 1000}));
+    evs
+}
